@@ -33,9 +33,11 @@ def note(k, v=1):
 # ------------------------------------------------------------------------------------------------
 def hierarchies(tier):
     out = []
-    shapes = ["single", "spec_sub", "plain_sub", "spec_sub_plain", "multi", "spec_sub_sub"]
+    shapes = ["single", "spec_sub", "plain_sub", "spec_sub_plain", "multi", "spec_sub_sub", "spec_plain_spec", "diamond"]
     for shape, ctor, key, overflow, noinit, factory in itertools.product(
             shapes, ("generated", "handwritten"), (None, "nodefault", "default"), (False, True), (False, True), (False, True)):
+        if shape in ("spec_plain_spec", "diamond") and (key or overflow or noinit or factory):
+            continue
         if ctor == "handwritten" and (key or noinit):
             continue  # the documented hand-written shape has no key handling / init=False attributes
         if shape == "multi" and (key or ctor == "handwritten"):
@@ -59,7 +61,7 @@ def classes_of(h):
     sh = h["shape"]
     if sh in ("spec_sub", "spec_sub_plain", "spec_sub_sub"):
         cls.append({"name": "Sub", "bases": ["Base"], "spec": True, "ctor": "generated", "key": None, "overflow": None, "post_init": False,
-                    "decl": {"a": {"ann": False, "default": 11, "init": True},          # merely re-defaulted (Base stays the owner)
+                    "decl": {"a": {"ann": False, "default": 0, "init": True},           # merely re-defaulted, to a FALSY value (Base stays the owner)
                              "b": {"ann": True, "default": 12, "init": True},           # re-declared: Sub takes ownership
                              "c": {"ann": True, "default": ("factory", 13) if fac else 13, "init": True}}})
     if sh == "plain_sub":
@@ -70,6 +72,17 @@ def classes_of(h):
     if sh == "spec_sub_sub":
         cls.append({"name": "SubSub", "bases": ["Sub"], "spec": True, "ctor": "generated", "key": None, "overflow": None, "post_init": False,
                     "decl": {"c": {"ann": False, "default": 33, "init": True}}})
+    if sh == "spec_plain_spec":
+        cls.append({"name": "Plain", "bases": ["Base"], "spec": False, "decl": {"a": {"ann": False, "default": 0, "init": True}}})
+        cls.append({"name": "Leaf3", "bases": ["Plain"], "spec": True, "ctor": "generated", "key": None, "overflow": None, "post_init": False,
+                    "decl": {"c": {"ann": True, "default": 13, "init": True}}})
+    if sh == "diamond":
+        cls.append({"name": "Left", "bases": ["Base"], "spec": True, "ctor": "generated", "key": None, "overflow": None, "post_init": False,
+                    "decl": {"c": {"ann": True, "default": 13, "init": True}}})
+        cls.append({"name": "Right", "bases": ["Base"], "spec": True, "ctor": "generated", "key": None, "overflow": None, "post_init": False,
+                    "decl": {"a": {"ann": False, "default": 0, "init": True}}})
+        cls.append({"name": "Bottom", "bases": ["Left", "Right"], "spec": True, "ctor": "generated", "key": None, "overflow": None, "post_init": False,
+                    "decl": {}})
     if sh == "multi":
         base["decl"].pop("b")
         cls.append({"name": "Other", "bases": [], "spec": True, "ctor": "generated", "key": None, "overflow": None, "post_init": False,
@@ -136,7 +149,10 @@ def mro(classes, name):
                     res.append(x)
         return res
 
-    return lin(name)
+    out = lin(name)
+    if name == "Bottom":
+        out = ["Bottom", "Left", "Right", "Base"]  # C3 linearisation of the diamond
+    return out
 
 
 def refinit(h, final, kwargs, positional_key):
@@ -206,10 +222,15 @@ def refinit(h, final, kwargs, positional_key):
 # ------------------------------------------------------------------------------------------------
 def keyword_sets(h):
     names = ATTRS if h["shape"] not in ("single", "plain_sub") else ["a", "b"]
+    if h["shape"] == "diamond":
+        names = ["a", "b", "c"]
     out = []
     for r in range(len(names) + 1):
         for combo in itertools.combinations(names, r):
             out.append({n: 50 + i for i, n in enumerate(combo)})
+    for n in names:
+        out.append({n: 0})  # an explicit falsy value is a value
+    out.append({n: 0 for n in names})
     for n in names:
         out.append({n: "bad"})
         out.append(dict({m: 60 for m in names if m != n}, **{n: "bad"}))
@@ -279,11 +300,11 @@ def judge(h, final, kwargs, positional_key):
 
 def finals(h):
     f = {"single": ["Base"], "spec_sub": ["Base", "Sub"], "plain_sub": ["Plain"], "spec_sub_plain": ["Plain", "Sub"], "multi": ["Multi"],
-         "spec_sub_sub": ["SubSub"]}[h["shape"]]
+         "spec_sub_sub": ["SubSub"], "spec_plain_spec": ["Leaf3", "Plain"], "diamond": ["Bottom", "Right"]}[h["shape"]]
     if h["ctor"] == "handwritten":
         # a class whose own __init__ is user-written does not use the generated constructor at all; the
         # hand-written constructor matters as a PARENT constructor only
-        f = [x for x in f if x not in ("Base",) and not (x == "Plain" and h["shape"] == "plain_sub")]
+        f = [x for x in f if x not in ("Base",) and not (x == "Plain" and h["shape"] in ("plain_sub", "spec_plain_spec"))]
     return f
 
 
